@@ -98,7 +98,7 @@ func loopKind(k string) bool {
 // only of the ones its quantifier lists).
 var plainKinds = []string{"seq", "let", "when", "unless", "cond", "lambda", "send",
 	"case", "ecase", "casedef", "typecase", "etypecase", "progv", "wots", "wifs", "wos", "letstar", "mvb", "or", "and",
-	"prog1", "prog2", "mvp1", "wslots", "wifo"}
+	"prog1", "prog2", "mvp1", "wslots", "wifo", "wsio"}
 
 var loopKinds = []string{"dolist", "dotimes", "do", "prog", "dostar", "progstar", "dovector", "loop"}
 
@@ -342,6 +342,15 @@ func (g *genCtx) node(depth int) Node {
 	case x < 71:
 		return Node{K: "recover", ID: id, Kids: g.kids(depth-1, 2)}
 	default:
+		if g.inSend == 0 && g.r.Pct(8) {
+			// a function body: nothing outside of it is a target
+			name := fmt.Sprintf("fn%d", id)
+			sb, st, sbt := g.blocks, g.tags, g.btags
+			g.blocks, g.tags, g.btags = []string{name}, nil, nil
+			n := Node{K: "fn", ID: id, Name: name, Kids: g.kids(depth-1, 3)}
+			g.blocks, g.tags, g.btags = sb, st, sbt
+			return n
+		}
 		var k string
 		if g.r.Pct(36) {
 			k = loopKinds[g.r.Intn(len(loopKinds))]
@@ -532,6 +541,12 @@ func (n *Node) render(dir string, b *strings.Builder) {
 		fmt.Fprintf(b, "(with-input-from-string (ws%d \"abc\") %s)", n.ID, all())
 	case "wifo":
 		fmt.Fprintf(b, "(with-input-from-octets (ws%d \"abc\") %s)", n.ID, all())
+	case "wsio":
+		fmt.Fprintf(b, "(with-standard-io-syntax %s)", all())
+	case "fn":
+		// the kids are the body of a function defined here: exits stay
+		// inside it, (return-from fnN v) leaves through its implicit block
+		fmt.Fprintf(b, "(progn (defun fn%d () %s) (let ((bv%d (fn%d))) (sim-emit \"bend\" \"fn%d\" bv%d) bv%d))", n.ID, all(), n.ID, n.ID, n.ID, n.ID, n.ID)
 	case "wos":
 		fmt.Fprintf(b, "(with-open-stream (ws%d (make-string-input-stream \"abc\")) %s)", n.ID, all())
 	case "letstar":
@@ -1241,6 +1256,9 @@ func validTargets(n *Node, blocks, tags, btags []string) bool {
 	}
 	for i := range n.Kids {
 		b, t, bt := blocks, tags, btags
+		if n.K == "fn" {
+			b, t, bt = []string{n.Name}, nil, nil
+		}
 		if n.K == "block" {
 			b = append(append([]string{}, blocks...), n.Name)
 		}
